@@ -85,6 +85,11 @@ fn context_rules(cfg: &Cfg, rep: &mut Report, h: u64, steps: usize, grow: bool) 
     // policy 5 is moody: its install / uninstall hooks may fail (bit 0 / bit 1)
     let mut moods: u32 = 0;
     for step in 0..steps {
+        // (rarely) far beyond every lifetime extension the library asks for: a registry must not forget
+        if rng.chance(1, 40) {
+            w.set_ledger(w.ledger() + 600_000);
+            rep.count("ledger_jumps");
+        }
         if rng.chance(1, 12) {
             moods = rng.below(4) as u32;
             invoke::<()>(e, &policies[5], "set_moods", args!(e, moods)).unwrap();
@@ -292,6 +297,11 @@ fn cti_registry(cfg: &Cfg, rep: &mut Report, h: u64, steps: usize, grow: bool) {
     let mut topics: BTreeSet<u32> = BTreeSet::new();
     let mut it: BTreeMap<usize, BTreeSet<u32>> = BTreeMap::new();
     for step in 0..steps {
+        // (rarely) far beyond every lifetime extension the library asks for: a registry must not forget
+        if rng.chance(1, 40) {
+            w.set_ledger(w.ledger() + 600_000);
+            rep.count("ledger_jumps");
+        }
         let t = 1 + rng.below(nt as u64) as u32;
         let i = rng.idx(ni);
         let k = rng.below(100);
@@ -464,6 +474,11 @@ fn issuer_keys(cfg: &Cfg, rep: &mut Report, h: u64, steps: usize, mode: u32) {
     // topics for which each registry currently trusts the issuer (allow_key asks the registry)
     let mut trusted: Vec<BTreeSet<u32>> = vec![(1..=ntop).collect(), (1..=ntop).collect()];
     for step in 0..steps {
+        // (rarely) far beyond every lifetime extension the library asks for: a registry must not forget
+        if rng.chance(1, 40) {
+            w.set_ledger(w.ledger() + 600_000);
+            rep.count("ledger_jumps");
+        }
         // a registry changes its mind about the issuer: keys already allowed stay, removal stays possible,
         // new pairs for an untrusted (registry, topic) are refused
         if mode == 0 && rng.chance(1, 10) {
@@ -584,6 +599,11 @@ fn token_binder(cfg: &Cfg, rep: &mut Report, h: u64, steps: usize, to_max: bool)
     let mut is_bound = vec![false; universe];
     let mut next_fresh = 0usize;
     for step in 0..steps {
+        // (rarely) far beyond every lifetime extension the library asks for: a registry must not forget
+        if rng.chance(1, 40) {
+            w.set_ledger(w.ledger() + 600_000);
+            rep.count("ledger_jumps");
+        }
         let k = rng.below(100);
         let (desc, want, r): (String, bool, Result<(), Fail>);
         if k < 20 {
@@ -701,6 +721,11 @@ fn documents(cfg: &Cfg, rep: &mut Report, h: u64, steps: usize, to_max: bool) {
     let mut docs: BTreeMap<usize, (String, [u8; 32], u64)> = BTreeMap::new();
     let mut fresh = 0usize;
     for step in 0..steps {
+        // (rarely) far beyond every lifetime extension the library asks for: a registry must not forget
+        if rng.chance(1, 40) {
+            w.set_ledger(w.ledger() + 600_000);
+            rep.count("ledger_jumps");
+        }
         if rng.chance(1, 20) {
             w.set_time(1_700_000_000 + step as u64 * 10);
         }
@@ -810,6 +835,11 @@ fn identities(cfg: &Cfg, rep: &mut Report, h: u64, steps: usize) {
     let mut ident: BTreeMap<usize, (usize, Vec<u32>)> = BTreeMap::new(); // account -> (identity, country codes)
     let mut recovered: BTreeMap<usize, usize> = BTreeMap::new();
     for step in 0..steps {
+        // (rarely) far beyond every lifetime extension the library asks for: a registry must not forget
+        if rng.chance(1, 40) {
+            w.set_ledger(w.ledger() + 600_000);
+            rep.count("ledger_jumps");
+        }
         let a = rng.idx(na);
         let b = rng.idx(na);
         let k = rng.below(100);
@@ -949,6 +979,11 @@ fn claims(cfg: &Cfg, rep: &mut Report, h: u64, steps: usize) {
     };
     let mut held: BTreeMap<(usize, u32), Vec<u8>> = BTreeMap::new();
     for step in 0..steps {
+        // (rarely) far beyond every lifetime extension the library asks for: a registry must not forget
+        if rng.chance(1, 40) {
+            w.set_ledger(w.ledger() + 600_000);
+            rep.count("ledger_jumps");
+        }
         let i = rng.idx(3);
         let t = 1 + rng.below(3) as u32;
         let (desc, want, r): (String, bool, Result<Val, Fail>);
@@ -1012,6 +1047,11 @@ fn compliance(cfg: &Cfg, rep: &mut Report, h: u64, steps: usize) {
     let hooks = [ComplianceHook::Transferred, ComplianceHook::Created, ComplianceHook::Destroyed, ComplianceHook::CanTransfer, ComplianceHook::CanCreate];
     let mut reg: Vec<BTreeSet<usize>> = vec![BTreeSet::new(); 5];
     for step in 0..steps {
+        // (rarely) far beyond every lifetime extension the library asks for: a registry must not forget
+        if rng.chance(1, 40) {
+            w.set_ledger(w.ledger() + 600_000);
+            rep.count("ledger_jumps");
+        }
         let hk = if rng.chance(3, 4) { 0 } else { rng.idx(5) };
         let m = rng.idx(22);
         let add = rng.chance(8, 10);
